@@ -67,6 +67,11 @@ func (fold *fold) Exit(node *Node) {
 		case "/":
 			if a, ok := n.Left.(*IntegerNode); ok {
 				if b, ok := n.Right.(*IntegerNode); ok {
+					if isFloat(a.Type()) || isFloat(b.Type()) {
+						// The literals stand for floats (the checker retyped them
+						// for a float parameter): integer division would truncate.
+						return
+					}
 					if b.Value == 0 {
 						fold.err = &file.Error{
 							Location: (*node).Location(),
@@ -130,4 +135,11 @@ func (fold *fold) Exit(node *Node) {
 
 		}
 	}
+}
+
+func isFloat(t reflect.Type) bool {
+	if t == nil {
+		return false
+	}
+	return t.Kind() == reflect.Float32 || t.Kind() == reflect.Float64
 }
